@@ -144,8 +144,8 @@ BOUND = T.one_of(T.none, T.int)
 # offset/total are prefix sums with proved monotonicity lemma (pyvc/folds.py)
 from pyvc import folds as _folds
 import z3 as _z3
-_OFFSET = _folds.PrefixSum('offset', lambda L, zi: _z3.Length(L.funcs['text'][0](zi)))
-_PLAIN = _folds.PrefixConcat('plain', lambda L, zi: L.funcs['text'][0](zi), _OFFSET)
+_OFFSET = _folds.PrefixSum('offset', lambda V, zi: _z3.Length(V.field('text', zi)))
+_PLAIN = _folds.PrefixConcat('plain', lambda V, zi: V.field('text', zi), _OFFSET)
 FOLD_MODELS = {'offset': _folds.prefix_model(_OFFSET), 'total': _folds.whole_model(_OFFSET),
                'plain': _folds.whole_model(_PLAIN), 'color_at': _folds.locate_model(_OFFSET, 'c_prefix')}
 
@@ -158,9 +158,56 @@ def _chunk_pos_result(I, name):
     return (None, None)
 
 
+_RENDERED = _folds.PrefixConcat(
+    'rendered', lambda V, zi: _z3.Concat(V.field('c_prefix', zi), V.field('text', zi), V.field('c_suffix', zi)),
+    _folds.PrefixSum('rendered_len', lambda V, zi: _z3.Length(_z3.Concat(V.field('c_prefix', zi), V.field('text', zi),
+                                                                         V.field('c_suffix', zi)))))
+FOLD_MODELS['rendered'] = _folds.whole_model(_RENDERED)
+FOLD_MODELS['plain_upto'] = _folds.prefix_model(_PLAIN)
+
+
+def plain_upto(chunks, i):
+    return plain(chunks[:i])
+
+
+def rendered(chunks):
+    """what printing the text sends to the terminal"""
+    out = ""
+    for c in chunks:
+        out = out + c.c_prefix + c.text + c.c_suffix
+    return out
+
+
+def wf_any(t):
+    """wf, written so that it can be evaluated for a chunk list of any (symbolic) length"""
+    n = len(t.chunks)
+    return (all(len(c.text) > 0 for c in t.chunks)
+            and all(t.chunks[i].c_prefix != t.chunks[i + 1].c_prefix for i in range(n - 1))
+            and t.scrlen == total(t.chunks))
+
+
+def ANYCHUNKS():
+    return T.symobjlist('ak.color:_CHTextChunk', c_prefix=T.str, text=T.str, c_suffix=T.str)
+
+
 def ANYTEXT():
-    return T.obj('ak.color:CHText', scrlen=T.int,
-                 chunks=T.symobjlist('ak.color:_CHTextChunk', c_prefix=T.str, text=T.str, c_suffix=T.str))
+    return T.obj('ak.color:CHText', scrlen=T.int, chunks=ANYCHUNKS())
+
+
+HAVOC_TEXT = {'self.chunks': ANYCHUNKS(), 'self.scrlen': T.int}
+_APPENDED = {
+    'wf': "wf_any(self)",
+    'text': "plain(self.chunks) == plain(old(self.chunks)) + {text}",
+    'len': "self.scrlen == old(self.scrlen) + len({text})",
+    'colors': "not (0 <= p < self.scrlen) or color_at(self.chunks, p) == "
+              "(color_at(old(self.chunks), p) if p < old(self.scrlen) else {prefix})",
+}
+
+
+def appended(text, prefix, **more):
+    d = {k: v.format(text=text, prefix=prefix) for k, v in _APPENDED.items()}
+    d.update(more)
+    return d
 
 
 UNBOUNDED_CONTRACTS = [
@@ -178,6 +225,53 @@ UNBOUNDED_CONTRACTS = [
              invariants={0: {'inv': "position == old(position) - offset(self.chunks, __i) and position >= 0"}},
              symlist_models=FOLD_MODELS,
              raises={}, modifies=[]),
+    Contract(M, 'CHText.plain_text', name='CHText.plain_text/any_length', prop=PROP, spec_globals=G, level='top',
+             params={'self': T.one_of(ANYTEXT())}, requires=[],
+             ensures={'text': "result == plain(self.chunks)"},
+             symlist_models=FOLD_MODELS, raises={}, modifies=[]),
+    Contract(M, 'CHText.__str__', name='CHText.__str__/any_length', prop=PROP, spec_globals=G, level='top',
+             params={'self': T.one_of(ANYTEXT())}, requires=[],
+             ensures={'rendering': "result == rendered(self.chunks)"},
+             symlist_models=FOLD_MODELS, raises={}, modifies=[]),
+    Contract(M, 'CHText.__len__', name='CHText.__len__/any_length', prop=PROP, spec_globals=G, level='top',
+             params={'self': T.one_of(ANYTEXT())}, requires=["wf_any(self)"],
+             ensures={'len': "result == len(plain(self.chunks))"},
+             symlist_models=FOLD_MODELS, raises={}, modifies=[]),
+    Contract(M, 'CHText._append_chunk', name='CHText._append_chunk/any_length', prop=PROP, spec_globals=G, level='top',
+             params={'self': T.one_of(ANYTEXT()), 'chunk': CHUNK(), 'p': T.int},      # p: ghost - an arbitrary position
+             requires=["wf_any(self)"],
+             ensures=appended('chunk.text', 'chunk.c_prefix'),
+             result_spec=T.none, havoc=HAVOC_TEXT,
+             symlist_models=FOLD_MODELS, raises={}, modifies=['self.chunks', 'self.scrlen']),
+    Contract(M, 'CHText.__iadd__', name='CHText.__iadd__/chunk/any_length', prop=PROP, spec_globals=G, level='top',
+             params={'self': T.one_of(ANYTEXT()), 'other': CHUNK(), 'p': T.int},
+             requires=["wf_any(self)"],
+             ensures=appended('other.text', 'other.c_prefix', returns_self="result is self"),
+             symlist_models=FOLD_MODELS, raises={}, modifies=['self.chunks', 'self.scrlen']),
+    Contract(M, 'CHText.__iadd__', name='CHText.__iadd__/str/any_length', prop=PROP, spec_globals=G, level='top',
+             params={'self': T.one_of(ANYTEXT()), 'other': T.str, 'p': T.int},
+             requires=["wf_any(self)"],
+             ensures=appended('other', '""', returns_self="result is self"),
+             symlist_models=FOLD_MODELS, raises={}, modifies=['self.chunks', 'self.scrlen']),
+    Contract(M, 'CHText.__iadd__', name='CHText.__iadd__/text/any_length', prop=PROP, spec_globals=G, level='top',
+             params={'self': T.one_of(ANYTEXT()), 'other': T.one_of(ANYTEXT()), 'p': T.int},
+             requires=["wf_any(self)", "other.scrlen == total(other.chunks)"],
+             ensures={
+                 'wf': "wf_any(self)",
+                 'text': "plain(self.chunks) == plain(old(self.chunks)) + plain(other.chunks)",
+                 'len': "self.scrlen == old(self.scrlen) + other.scrlen",
+                 'colors': "not (0 <= p < self.scrlen) or color_at(self.chunks, p) == "
+                           "(color_at(old(self.chunks), p) if p < old(self.scrlen) else "
+                           "color_at(other.chunks, p - old(self.scrlen)))",
+                 'returns_self': "result is self",
+             },
+             invariants={1: {'inv': "wf_any(self) and plain(self.chunks) == plain(old(self.chunks)) + plain_upto(other.chunks, __i)"
+                                    " and self.scrlen == old(self.scrlen) + offset(other.chunks, __i)"
+                                    " and (not (0 <= p < self.scrlen) or color_at(self.chunks, p) == "
+                                    "(color_at(old(self.chunks), p) if p < old(self.scrlen) else "
+                                    "color_at(other.chunks, p - old(self.scrlen))))",
+                             'modifies': HAVOC_TEXT}},
+             symlist_models=FOLD_MODELS, raises={}, modifies=['self.chunks', 'self.scrlen']),
     Contract(M, 'CHText.__getitem__', name='CHText.__getitem__/index/any_length', prop=PROP, spec_globals=G, level='top',
              params={'self': T.one_of(ANYTEXT()), 'index': T.int},
              requires=["self.scrlen == total(self.chunks)"],
@@ -350,9 +444,33 @@ CHText_cls = akc.CHText
 
 BOUNDED_SYMBOLIC = {'CHText.join': 3, 'CHText.__init__': 2, 'CHText._append_chunk': 3, 'CHText.__iadd__': 2, 'CHText.__add__': 2, 'CHText.__radd__': 2,
                     'CHText.__eq__/text': 2, 'CHText.__eq__/str': 3, 'CHText.fixed_len': 2, 'CHText._get_chunk_pos': 3, 'CHText.__getitem__/index': 3, 'CHText.__getitem__/slice': 3}
-USES = {'CHText.__getitem__/index/any_length': ['CHText._get_chunk_pos/any_length']}
+USES = {'CHText.__getitem__/index/any_length': ['CHText._get_chunk_pos/any_length'],
+        'CHText.__iadd__/chunk/any_length': ['CHText._append_chunk/any_length'],
+        'CHText.__iadd__/str/any_length': ['CHText._append_chunk/any_length'],
+        'CHText.__iadd__/text/any_length': ['CHText._append_chunk/any_length']}
 ASSUMED_LIBRARY = []
 CANARIES = [
+    {'name': 'anylen_append_counts_one', 'module': M, 'function': 'CHText._append_chunk', 'verify': 'CHText._append_chunk/any_length',
+     'old': 'self.scrlen += len(chunk.text)', 'new': 'self.scrlen += 1',
+     'expect': 'C08.CHText._append_chunk/any_length.len'},
+    {'name': 'anylen_append_compares_with_first_chunk', 'module': M, 'function': 'CHText._append_chunk',
+     'verify': 'CHText._append_chunk/any_length',
+     'old': 'if self.chunks and chunk.has_same_type(self.chunks[-1]):', 'new': 'if self.chunks and chunk.has_same_type(self.chunks[0]):',
+     'expect': 'C08.CHText._append_chunk/any_length.wf'},
+    {'name': 'anylen_append_keeps_empty_chunk', 'module': M, 'function': 'CHText._append_chunk',
+     'verify': 'CHText._append_chunk/any_length',
+     'old': 'if not chunk.text:', 'new': 'if chunk.text is None:',
+     'expect': 'C08.CHText._append_chunk/any_length.wf'},
+    {'name': 'anylen_merge_in_wrong_order', 'module': M, 'function': 'CHText._append_chunk',
+     'verify': 'CHText._append_chunk/any_length',
+     'old': 'prev_chunk.clone(prev_chunk.text + chunk.text)', 'new': 'prev_chunk.clone(chunk.text + prev_chunk.text)',
+     'expect': 'C08.CHText._append_chunk/any_length.text'},
+    {'name': 'anylen_plain_text_of_prefixes', 'module': M, 'function': 'CHText.plain_text', 'verify': 'CHText.plain_text/any_length',
+     'old': '"".join(part.text for part in self.chunks)', 'new': '"".join(part.c_prefix for part in self.chunks)',
+     'expect': 'C08.CHText.plain_text/any_length.text'},
+    {'name': 'anylen_str_drops_suffix', 'module': M, 'function': 'CHText.__str__', 'verify': 'CHText.__str__/any_length',
+     'old': '{p.c_prefix}{p.text}{p.c_suffix}', 'new': '{p.c_prefix}{p.text}',
+     'expect': 'C08.CHText.__str__/any_length.rendering'},
     {'name': 'anylen_index_takes_first_char_of_chunk', 'module': M, 'function': 'CHText.__getitem__',
      'verify': 'CHText.__getitem__/index/any_length',
      'old': 'return type(self)(cur_chunk.clone(cur_chunk.text[chunk_pos]))',
